@@ -167,12 +167,18 @@ Proof.
   repeat match goal with |- np (if ?c then _ else _) => destruct c end; auto with eml.
 Qed.
 
+Lemma part_cte_nonempty : forall h, 0 <= 0 < ilen (part_cte h).
+Proof.
+  intros h. unfold part_cte. destruct (hvals h hdr_content_transfer_enc); unfold ilen; cbn [length]; lia.
+Qed.
+
 Lemma part_step_np : forall sub p st,
   (forall s, np (sub s)) -> np (part_step fnof legacy sub p st).
 Proof.
   intros sub p st Hsub. unfold part_step.
   apply np_bind.
-  - destruct (hvals (e_hdr p) hdr_content_type) as [|c0 [|c1 r]]; auto with eml.
+  - unfold nested_phase.
+    destruct (hvals (e_hdr p) hdr_content_type) as [|c0 [|c1 r]]; auto with eml.
     destruct (go_index_ok _ [c0] 0) as [x Hx]; [unfold ilen; cbn [length]; lia|].
     rewrite Hx. cbn [bind].
     destruct (pmh_ok x) as [ph Hph]. rewrite Hph. cbn [bind].
@@ -180,7 +186,7 @@ Proof.
       auto with eml.
     destruct (read_ok (e_bits p)); auto with eml.
     apply np_bind; [apply Hsub | auto with eml].
-  - intros [st1 drained] _.
+  - intros [st1 drained] _. unfold body_phase.
     destruct (hvals (e_hdr p) hdr_content_disposition) as [|c cd].
     + destruct (negb (drained || read_ok (e_bits p))); auto with eml.
       destruct (hvals (e_hdr p) hdr_content_type) as [|c0 cts]; auto with eml.
@@ -190,11 +196,9 @@ Proof.
       destruct (pmh_ok x) as [[contentType optional] Hph]. rewrite Hph. cbn [bind].
       destruct (eqfold contentType type_multipart_related
                 || negb legacy && eqfold contentType type_multipart_alternative)%bool; auto with eml.
-      set (ctes := match hvals (e_hdr p) hdr_content_transfer_enc with [] => [enc_qp] | _ :: _ => _ end).
-      assert (Hc : 0 <= 0 < ilen ctes).
-      { subst ctes. destruct (hvals (e_hdr p) hdr_content_transfer_enc); unfold ilen; cbn [length]; lia. }
-      destruct (go_index_ok _ ctes 0 Hc) as [e0 He0]. rewrite He0. cbn [bind].
-      repeat match goal with |- np (if ?c then _ else _) => destruct c end; auto with eml.
+      destruct (go_index_ok _ (part_cte (e_hdr p)) 0 (part_cte_nonempty _)) as [e0 He0]. rewrite He0. cbn [bind].
+      destruct (classify_cte e0); auto with eml.
+      match goal with |- np (if ?c then _ else _) => destruct c end; auto with eml.
     + apply attachment_embed_np.
 Qed.
 
